@@ -206,4 +206,19 @@ CLAIMED = {
                 "not importable.",
         "technique": "property-based testing: per-format round-trip oracle with in-domain / out-of-domain value generators; coverage-guided fuzzing (atheris) of the CSV metadata codec in the thorough tier",
     },
+    "C12": {
+        "text": "Hypothesis-generated exact data from the 10 well-posed models (parameter windows, 8-60 point grids, several entry "
+                "paths and magnitudes), noisy increasing data for all 16 models, model lists, user bounds / guesses, two-branch "
+                "inputs and unit variants: exact data reproduced when the fit returns (1e-2), reported rmse == recomputed "
+                "normalised RMS deviation (Virial: its own linearised residual), winner of guess() has the smallest error among "
+                "candidates that converge alone, parameters inside the bounds in force, fit of a branch == fit of that branch's "
+                "rows alone and unaffected by the other branch, PointIsotherm.from_modelisotherm lies on the model and keeps "
+                "metadata / units and refits to the same curve, same data in other units give the same curve up to the "
+                "reference conversion.",
+        "note": "Open findings KF-C12-1 (remaining scale dependence of starting guesses / bounds after the partial repair "
+                "69aa9f0; class = violations whose data ARE reproduced once pressures and loadings are divided by their "
+                "maxima) and KF-C12-2 (TemkinApprox secondary minima) excluded by narrow predicates; refused fits are "
+                "inconclusive; noisy data are used for the rmse / bounds / guess / branch clauses only.",
+        "technique": "property-based testing: generator-recovery, recomputed-error identity, best-of-list and isolation/metamorphic unit relations",
+    },
 }
